@@ -383,6 +383,62 @@ def pinned_fingerprints():
 
 # --------------------------------------------------------------------------- the check
 
+def _fresh_run(pid, cases, model):
+    """impl of `cases` in order in a fresh interpreter; -> (agree of the last one with `model`, str(impl))"""
+    env = dict(os.environ)
+    p = subprocess.run([sys.executable, '-m', 'harness.fresh', pid], cwd=VERIF, env=env, timeout=600,
+                       input=json.dumps({'cases': cases, 'model': model}).encode('utf-8'),
+                       stdout=subprocess.PIPE, stderr=subprocess.PIPE)
+    for line in p.stdout.decode('utf-8', 'replace').split('\n'):
+        if line.startswith('FRESH-RESULT '):
+            r = json.loads(line[len('FRESH-RESULT '):])
+            return r['agree'], r['impl']
+    raise RuntimeError('fresh interpreter gave no result: rc=%s %s' % (p.returncode, p.stderr.decode('utf-8', 'replace')[-300:]))
+
+
+def fresh_process_probe(pid, cases, model_ans, disagreements, max_probe=4, budget=14):
+    """-> None | (case, history (list of earlier cases), message)"""
+    index = {}
+    for i, c in enumerate(cases):
+        index.setdefault(json.dumps(c, sort_keys=True), i)
+    for c, impl, model in disagreements[:max_probe]:
+        try:
+            json.dumps(c)
+        except (TypeError, ValueError):
+            continue
+        agree, fresh_impl = _fresh_run(pid, [c], model)
+        budget -= 1
+        if not agree:
+            continue          # it disagrees on its own: the input's matter, not the history's
+        # the answer depends on what this process did before: shortest prefix of the run that still changes it
+        i = index.get(json.dumps(c, sort_keys=True))
+        history = None
+        if i is not None and i > 0:
+            lo, hi = 0, i          # prefix cases[:hi] changes the answer (the run showed it); cases[:lo] does not
+            while hi - lo > 1 and budget > 0:
+                mid = (lo + hi) // 2
+                a, _ = _fresh_run(pid, cases[:mid] + [c], model)
+                budget -= 1
+                if a:
+                    lo = mid
+                else:
+                    hi = mid
+            if hi - lo == 1 and budget > 0:
+                a, _ = _fresh_run(pid, [cases[hi - 1], c], model)
+                budget -= 1
+                history = [cases[hi - 1]] if not a else cases[:hi]
+            else:
+                history = cases[:hi]
+        msg = ('the answer to this input depends on what was evaluated before it in the same process: here (after %s) the '
+               'implementation gives %s, in a fresh process it gives %s, which is what the model says' % (
+                   ('%d earlier case(s) of this run' % len(history)) if history is not None else 'the earlier cases of this run',
+                   str(impl)[:200], fresh_impl[:200]))
+        if history is not None and len(history) > 50:
+            history = history[-50:]          # the replay keeps the tail; the message says how long the prefix was
+        return c, history or [], msg
+    return None
+
+
 class Outcome(object):
     def __init__(self):
         self.build_ok = True
@@ -526,6 +582,19 @@ def run_check(plugin, tier, seed, replay=None):
                 if msg:
                     out.oracle_failures.append((c, msg))
                     break
+        # 5c. disagreements without an oracle failure: does the answer belong to the INPUT or to the HISTORY of this process?
+        #     The same case is evaluated in a fresh interpreter; if implementation and model agree there, state left behind
+        #     by earlier evaluations of this run changed the answer - a concrete failing history (the shortest prefix of the
+        #     run that still changes it is searched for with a few more fresh interpreters)
+        if out.disagreements and not out.oracle_failures and replay is None and getattr(plugin, 'FRESH_REPLAY', True):
+            try:
+                found = fresh_process_probe(plugin.ID, cases, model_ans, out.disagreements)
+            except Exception as e:
+                out.notes.append('fresh-process probe failed: %r' % (e,))
+                found = None
+            if found is not None:
+                c, history, msg = found
+                out.history_failure = {'case': c, 'history': history, 'oracle': msg}
     finally:
         driver.close()
 
@@ -558,7 +627,12 @@ def run_check(plugin, tier, seed, replay=None):
                 out.notes.append('stale known finding (no longer fails): %s' % k.get('id'))
 
     violation = None
-    if new_failures:
+    hf = getattr(out, 'history_failure', None)
+    if not new_failures and hf is not None:
+        violation = {'property': pid, 'kind': 'failing-input', 'case': hf['case'], 'cases': hf['history'] + [hf['case']],
+                     'oracle': hf['oracle'], 'seed': seed, 'tier': tier, 'build_failures': out.build_failures,
+                     'disagreements': [{'case': d[0], 'impl': str(d[1])[:300], 'model': d[2][:300]} for d in out.disagreements[:5]]}
+    elif new_failures:
         if hasattr(plugin, 'shrink'):
             try:
                 new_failures[0] = plugin.shrink(new_failures[0][0], new_failures[0][1])
